@@ -92,6 +92,24 @@ def hmf_penalty(g, eps):
     return float(eps * np.sum(d * d))
 
 
+def hmf_objective_eval_error(s, w, a, g, eps):
+    """First-order bound on the rounding error of *evaluating* chi^2 (+ penalty) of given factors in float64.
+
+    Each residual r = s - sum_k a_k g_k carries an absolute error <= (K+2) u (|a||g| + |s|); squaring and weighting
+    gives sum w (2 |r| dr + dr^2).  At signal-to-noise S this is ~ u S chi^2 - the reason a fixed relative tolerance on
+    chi^2 is wrong for high S/N data - while a formula that subtracts quantities of size sum w s^2 errs by u S^2 chi^2.
+    """
+    K = g.shape[0]
+    r = s - a @ g
+    dr = (K + 2) * EPS * (np.abs(a) @ np.abs(g) + np.abs(s))
+    err = float(np.sum(w * (2 * np.abs(r) * dr + dr * dr)))
+    if eps is not None and eps > 0:
+        d = g[:, 1:] - g[:, :-1]
+        dd = 2 * EPS * (np.abs(g[:, 1:]) + np.abs(g[:, :-1]))
+        err += float(eps * np.sum(2 * np.abs(d) * dd + dd * dd))
+    return err
+
+
 def hmf_astep_residual(s, w, g, a):
     """Worst component-wise relative residual of the N normal equations G_i a_i = F_i.
 
